@@ -642,6 +642,9 @@ def C02(run):
     # ... and real programs: the texts of the program corpus get the recogniser model's verdict
     run.rule += '; the texts of the program corpus (the repository\'s own test programs) get the recogniser model\'s verdict: same tree / same error line'
     corpus_parse(run)
+    # "string literals denote exactly their written value" also for the user of the tool: programs whose literals hold carriage returns
+    # and line breaks through `rrss parse` / `rrss exec` (CliTrace.tla: the tool prints the library's tree and output)
+    clitrace(run, (('cli', 1000),), only=lambda l: '\\\\r' in l)
     if run.tier == 'thorough':
         grammar(run, 'e2e', family='e2e', parts='run')
         tlc_replay(run, 'parser-simlines', 'MC_Parser.tla', 'MC_Parser_simlines.cfg', 'verdict', simulate='num=4000', workers=8, xss='256m')
